@@ -122,6 +122,54 @@ func walkSkeleton(label string, body ast.Node) {
 	})
 }
 
+// dispatch facts: WHICH list / filter a recursive function hands on, under which case. For every for-range
+// loop and every call of one of `calls` inside body: (function, enclosing case clauses, "range X" / "call f(args)"),
+// in source order. The decision skeleton records conditions only: a recursion that picks another list under the
+// same conditions would not show there.
+type disp struct{ fn, where, what string }
+
+var dispatch []disp
+
+func walkDispatch(label string, body ast.Node, calls map[string]bool) {
+	var stack []ast.Node
+	ctx := func() string {
+		var parts []string
+		for _, n := range stack {
+			if cc, ok := n.(*ast.CaseClause); ok {
+				if cc.List == nil {
+					parts = append(parts, "default")
+				} else {
+					var es []string
+					for _, e := range cc.List {
+						es = append(es, text(e))
+					}
+					parts = append(parts, "case "+strings.Join(es, ", "))
+				}
+			}
+		}
+		if len(parts) == 0 {
+			return "-"
+		}
+		return strings.Join(parts, " / ")
+	}
+	ast.Inspect(body, func(n ast.Node) bool {
+		if n == nil {
+			stack = stack[:len(stack)-1]
+			return true
+		}
+		switch s := n.(type) {
+		case *ast.RangeStmt:
+			dispatch = append(dispatch, disp{label, ctx(), "range " + text(s.X)})
+		case *ast.CallExpr:
+			if sel, ok := s.Fun.(*ast.SelectorExpr); ok && calls[sel.Sel.Name] {
+				dispatch = append(dispatch, disp{label, ctx(), "call " + text(s)})
+			}
+		}
+		stack = append(stack, n)
+		return true
+	})
+}
+
 // ---------------------------------------------------------------------------- ranges / enums
 
 type rng struct {
@@ -460,6 +508,8 @@ func main() {
 		{"httpapi/utils/encdec.go", "utils", map[string]bool{"DecodeValid": true}},
 		{"httpapi/middleware/appheaders.go", "middleware", map[string]bool{"AppHeaderMiddleware": true}},
 		{"cluster/actions.go", "cluster", map[string]bool{"ClusterNode.InsertPoints": true}},
+		// what is EXECUTED of a query (the model's Query.reach / Query.live transcribe this dispatch)
+		{"shard/index/search.go", "index", map[string]bool{"indexManager.Search": true, "indexManager.searchById": true}},
 		{"cluster/rpchandlers.go", "cluster", map[string]bool{"ClusterNode.RPCCreateCollection": true}},
 	}
 	seen := map[string]bool{}
@@ -519,6 +569,13 @@ func main() {
 			}
 			if full == "Query.ValidateSchema" {
 				collectEnums("models_ValidateSchema", "", fd.Body)
+				walkDispatch(label, fd.Body, map[string]bool{"ValidateSchema": true})
+			}
+			if full == "Query.Validate" {
+				walkDispatch(label, fd.Body, map[string]bool{"Validate": true})
+			}
+			if full == "indexManager.Search" {
+				walkDispatch(label, fd.Body, map[string]bool{"Search": true, "searchParallel": true, "searchById": true})
 			}
 		}
 	}
@@ -526,7 +583,7 @@ func main() {
 		"models.IndexVectorVamanaParameters.Validate", "models.IndexVectorFlatParameters.Validate", "models.PointAsMap.ExtractIdField", "models.convertToVector", "models.Quantizer.ValidateFor",
 		"v2.SemaDBHandlers.HandleInsertPoints", "v2.SemaDBHandlers.HandleSearchPoints", "v2.SemaDBHandlers.CollectionURIMiddleware",
 		"v1.SemaDBHandlers.HandleInsertPoints", "v1.SemaDBHandlers.CollectionURIMiddleware", "utils.DecodeValid", "middleware.AppHeaderMiddleware",
-		"cluster.ClusterNode.InsertPoints", "cluster.ClusterNode.RPCCreateCollection"} {
+		"cluster.ClusterNode.InsertPoints", "cluster.ClusterNode.RPCCreateCollection", "index.indexManager.Search", "index.indexManager.searchById"} {
 		if !seen[must] {
 			die("function %s not found", must)
 		}
@@ -599,6 +656,19 @@ func main() {
 			sep = ""
 		}
 		fmt.Fprintf(&b, "  (%s, %s)%s\n", leanStr(s.fn), leanStr(s.what), sep)
+	}
+	b.WriteString("]\n\n")
+	if len(dispatch) < 20 {
+		die("dispatch facts: expected the recursion sites of Query.Validate, Query.ValidateSchema and indexManager.Search, found %d", len(dispatch))
+	}
+	b.WriteString("/-- recursion sites: (function, enclosing case clauses, `range X` / `call f(args)`) in source order -/\n")
+	b.WriteString("def dispatch : List (String × String × String) := [\n")
+	for i, d := range dispatch {
+		sep := ","
+		if i == len(dispatch)-1 {
+			sep = ""
+		}
+		fmt.Fprintf(&b, "  (%s, %s, %s)%s\n", leanStr(d.fn), leanStr(d.where), leanStr(d.what), sep)
 	}
 	b.WriteString("]\n\n")
 	emitList := func(name, doc string, xs []string) {
